@@ -36,6 +36,8 @@ def cases(tier, seed):
     for n in range(2, 7):
         for _ in range((12 if n < 6 else 3) if tier == "quick" else 60):
             cs.append(("bt", tuple(rng.choice([1e-6, 1e-3, 0.2, 1, 7, 1000, 0.31, 0.05]) for _ in range(n)), rng.choice([0, 1])))
+    cs.append(("bt-pair", (1, 2e-7, 1e-7), (1, 1e-7, 2e-7)))
+    cs.append(("bt-pair", (0.5, 0.3000001, 0.2), (0.5, 0.3000004, 0.2)))
     for a in (1, 2, 3):
         for b in (1, 2, 3):
             for c in (0.05, 0.2, 0.5, 0.8, 1.0):
@@ -127,6 +129,12 @@ def check_case(case):
         for c, v in exp.items():
             if v > 0 and (c not in comb.interval or not close(comb.interval[c], float(v / T))):
                 viol("combine:value", f"{c}: {comb.interval.get(c)} != {float(v / T)}")
+        return out
+    if kind == "bt-pair":
+        # consecutive table computations in one process must not influence each other
+        for sup in case[1:]:
+            sub = check_case(("bt", tuple(sup), 0))
+            out["violations"] += [dict(v, key=v["key"] + "[second-computation]") for v in sub["violations"]]
         return out
     if kind == "bt":
         _, sup, with_zero = case
